@@ -89,6 +89,14 @@ func init() {
 			os.WriteFile(p, []byte(f.Nth(1).Str()), 0o644)
 			rels = append(rels, f.Nth(0).Str())
 		}
+		// every other tree: files that declare no type, sorted before all sources -- a package-info.java, a zero-byte
+		// .java file, a .gitkeep; they hold no import and must not keep the files behind them from being cleaned
+		if len(in.Items())%2 == 0 {
+			os.MkdirAll(filepath.Join(dir, "0meta"), 0o755)
+			os.WriteFile(filepath.Join(dir, "0meta", "package-info.java"), []byte("/** docs */\npackage zero.meta;\n"), 0o644)
+			os.WriteFile(filepath.Join(dir, "0meta", "Blank.java"), []byte{}, 0o644)
+			os.WriteFile(filepath.Join(dir, "0meta", ".gitkeep"), []byte{}, 0o644)
+		}
 		st1 := c06RunOnce(dir)
 		r1 := c06Read(dir, rels)
 		skip := st1 != "ok"
